@@ -215,12 +215,30 @@ def signature_of(ops, r):
     return None
 
 
+# error exits: p_shm_lock / p_shm_unlock of the next op fail (scripted sem_wait / sem_post failure), NULL arguments
+LOCKFAIL = [
+    ["new 0 8", "null", "w 0 010203", "failsem 1 0", "r 0 2", "pos", "failsem 0 1", "r 0 2", "pos", "used 0", "failsem 1 0", "w 0 0405", "pos", "failsem 0 1", "w 0 0405", "pos", "used 0",
+     "failsem 1 0", "used 0", "failsem 0 1", "used 0", "failsem 1 0", "free 0", "failsem 0 1", "free 0", "failsem 1 0", "clr 0", "pos", "used 0", "failsem 0 1", "clr 0", "pos", "used 0",
+     "failsem 1 1", "wz 0 3", "pos", "failsem 0 1", "w 0 " + "aa" * 9, "failsem 0 1", "r 0 0", "r 0 5", "failsem 1 0", "w 0 -", "pos", "failsem 0 1", "wz 0 2", "pos", "r 0 9"],
+    ["null", "new 0 3", "failsem 0 1", "r 0 1", "failsem 0 1", "w 0 010203", "failsem 0 1", "w 0 04", "r 0 9", "pos", "new 1 3", "failsem 1 0", "w 1 05", "failsem 0 1", "w 1 06", "r 0 3", "pos"],
+]
+
+
+def sprinkle_lock_failures(rng, ops, p=0.06):
+    out = []
+    for o in ops:
+        if o.split()[0] in ("w", "wz", "r", "clr", "used", "free") and rng.random() < p:
+            out.append("failsem %d %d" % rng.choice([(1, 0), (0, 1), (1, 1)]))
+        out.append(o)
+    return out
+
+
 def run(chk):
     cfg = pv.repo_config()
     proof_ok, driver_ok, detail = pv.proof_stage(chk, ["PV.Props.C08"])
     if any(d.startswith("extractor: ") and "pshmbuffer" in d for d in detail):
         proof_ok = False
-    exe = pv.build_harness("sb", cfg, ["sb.c"], san="asan")
+    exe = pv.build_harness("sb", cfg, ["sb.c"], san="asan", link=["-Wl,--wrap=sem_wait,--wrap=sem_post"])
     fam = diffrun.Family("sb", exe)
     thorough = chk.tier == "thorough"
     rng = chk.rng
@@ -231,7 +249,9 @@ def run(chk):
     nr = 1500 if thorough else 250
     rnd = [gen_case(rng, chk, rng.choice([10, 40, 120]), unequal=False) for _ in range(nr)]
     uneq = [gen_case(rng, chk, rng.choice([10, 40]), unequal=True) for _ in range(nr // 5)]
-    found, corr, thm = diffrun.campaign(chk, fam, cases + DIRECTED + ex + rnd, proof_ok, detail, signature_of, "C08", batch=60)
+    rnd += [sprinkle_lock_failures(rng, gen_case(rng, chk, rng.choice([10, 40]), unequal=False)) for _ in range(nr // 5)]
+    chk.bump("lock-failure / NULL-argument histories", len(LOCKFAIL) + nr // 5)
+    found, corr, thm = diffrun.campaign(chk, fam, cases + DIRECTED + LOCKFAIL + ex + rnd, proof_ok, detail, signature_of, "C08", batch=60)
     f2, c2, t2 = diffrun.campaign(chk, fam, uneq, proof_ok, detail, signature_of, "C08 unequal size arguments", batch=1)
     # supporting run / failing-input search for the atomicity clause: producer and consumer processes on a nearly full buffer
     st = [["stress %d %d:%d" % (cap, chunk, total)] for cap, chunk, total in
@@ -248,6 +268,7 @@ def run(chk):
     diffrun.conclude(chk, found or f2 or f3, corr or c2 or c3, thm or t2 or t3, proof_ok and driver_ok, detail, "C08 shm buffer")
     chk.cov["rule"] = ("op files on one buffer name through up to 6 handles: capacities 1..65536 and page-border capacities (segment = capacity+17 = k pages, ±1), lengths biased to free, free±1, 0, capacity+1 "
                        "and 2^31-1 .. 2^36 (reads and writes), all byte values; take_ownership, close of followers, close of the last owner followed by a fresh buffer of another capacity; header positions compared after every op; "
+                       "scripted failures of p_shm_lock / p_shm_unlock (sem_wait / sem_post wrapped) before read / write / clear / space queries, directed and sprinkled over random histories; NULL buffer / name / storage for every call; "
                        "exhaustive: all sequences of %d ops over write/read lengths 0..S+1, clear, used for small capacities; "
                        "concurrent: 1 producer/1 consumer streams and P producer processes x C consumer threads (shared handle) with whole frames + a used/free poller; distinct by op-file hash, non-trivial = more than one op" % depth)
     chk.assumptions += ["capacity < 2^31 - 1 (the read result is a pint)", "POSIX shm objects are zero-filled at creation and MAP_SHARED is coherent (trusted)",
@@ -256,4 +277,4 @@ def run(chk):
 
 
 def replay_family(cfg):
-    return diffrun.Family("sb", pv.build_harness("sb", cfg, ["sb.c"], san="asan"))
+    return diffrun.Family("sb", pv.build_harness("sb", cfg, ["sb.c"], san="asan", link=["-Wl,--wrap=sem_wait,--wrap=sem_post"]))
